@@ -133,8 +133,14 @@ func (r *Run) Finish(level string) int {
 		fmt.Printf("  key: %s\n  detail: %s\n  occurrences: %d\n", v.Key, v.Detail, v.Count)
 		exit = 1
 	}
-	if r.Replay {
+	if r.Replay || os.Getenv("VERIF_NO_EVIDENCE") != "" {
 		return exit
+	}
+	if knownHit == nil {
+		knownHit = []string{}
+	}
+	if r.Assume == nil {
+		r.Assume = []string{}
 	}
 	r.Cov["known_findings_hit"] = knownHit
 	doc := map[string]interface{}{
